@@ -27,6 +27,7 @@ import (
 	"math"
 	"os"
 	"path/filepath"
+	"plugin"
 	"reflect"
 	"sort"
 	"strconv"
@@ -153,6 +154,94 @@ func c19Synthetic() []c19Fn {
 		{"n_int", 5, "notfunc"},
 		{"n_nil", nil, "notfunc"},
 	}
+}
+
+// ---------------------------------------------------------------- plugin functions
+
+// The plugin path: util.ECALPluginFunction objects registered through the REAL
+// stdlib.AddStdlibPluginFunc / stdlib.LoadStdlibPlugin. Without a .so file the only way in is the
+// package's own test hook `pluginTestLookup` (an unexported variable, see stdlib_test.go); the harness
+// reaches it by symbol name. Its type there is the unexported interface
+// `pluginLookup{ Lookup(string) (plugin.Symbol, error) }`: an interface value of the identical method
+// set has the same representation.
+//
+//go:linkname c19PluginTestLookup github.com/krotik/ecal/stdlib.pluginTestLookup
+var c19PluginTestLookup interface {
+	Lookup(symName string) (plugin.Symbol, error)
+}
+
+type c19PluginFn struct {
+	name string
+	body string
+	run  func(args []interface{}) (interface{}, error)
+}
+
+func (f *c19PluginFn) Run(args []interface{}) (interface{}, error) { return f.run(args) }
+func (f *c19PluginFn) DocString() string                           { return "c19 plugin function " + f.name }
+
+type c19Lookup map[string]*c19PluginFn
+
+func (l c19Lookup) Lookup(symName string) (plugin.Symbol, error) {
+	if f, ok := l[symName]; ok {
+		return f, nil
+	}
+	return nil, fmt.Errorf("no such symbol")
+}
+
+// the shape AddStdlibPluginFunc gives every plugin function: func(a ...interface{}) (interface{}, error)
+const c19PluginSig = "Siface;V;iface,error"
+
+func c19Plugins() []*c19PluginFn {
+	var nilMap map[string]int
+	return []*c19PluginFn{
+		// returns its first argument: runtime error (index out of range) when it is missing
+		{"first", "pfirst", func(a []interface{}) (interface{}, error) { c19rec(a...); return a[0], nil }},
+		// the examples/plugin pattern: asserts the kind of its argument (panics on NULL / wrong kind / none)
+		{"str", "pstr", func(a []interface{}) (interface{}, error) { c19rec(a...); return a[0].(string), nil }},
+		{"num", "pnum", func(a []interface{}) (interface{}, error) { c19rec(a...); return a[0].(float64), nil }},
+		{"len", "plen", func(a []interface{}) (interface{}, error) { c19rec(a...); return float64(len(a)), nil }},
+		{"const", "k:n:4045000000000000|z", func(a []interface{}) (interface{}, error) { c19rec(a...); return 42.0, nil }},
+		{"null", "k:z|z", func(a []interface{}) (interface{}, error) { c19rec(a...); return nil, nil }},
+		{"err", "k:z|e", func(a []interface{}) (interface{}, error) { c19rec(a...); return nil, c19Err }},
+		{"valerr", "k:s:61|e", func(a []interface{}) (interface{}, error) { c19rec(a...); return "a", c19Err }},
+		{"panic", "panic", func(a []interface{}) (interface{}, error) { c19rec(a...); panic("boom") }},
+		{"panicerr", "panic", func(a []interface{}) (interface{}, error) { c19rec(a...); panic(c19Err) }},
+		{"nilmap", "panic", func(a []interface{}) (interface{}, error) { c19rec(a...); nilMap["a"] = 1; return nil, nil }},
+		{"nilderef", "panic", func(a []interface{}) (interface{}, error) {
+			c19rec(a...)
+			var p *int
+			return float64(*p), nil
+		}},
+	}
+}
+
+// c19RegisterPlugins drives the real registration code and returns the targets.
+func c19RegisterPlugins() []*c19Target {
+	fns := c19Plugins()
+	lk := c19Lookup{}
+	for _, f := range fns {
+		lk["Sym"+f.name] = f
+	}
+	c19PluginTestLookup = lk
+	defer func() { c19PluginTestLookup = nil }()
+	var ts []*c19Target
+	for i, f := range fns {
+		var err error
+		if i%2 == 0 {
+			err = stdlib.AddStdlibPluginFunc("c19p", "fn"+f.name, "", "Sym"+f.name)
+		} else {
+			err = stdlib.LoadStdlibPlugin(map[string]interface{}{"package": "c19p", "name": "fn" + f.name, "path": "", "symbol": "Sym" + f.name})
+		}
+		if err != nil {
+			panic("plugin registration failed: " + err.Error())
+		}
+		fo, ok := stdlib.GetStdlibFunc("c19p.fn" + f.name) // "fn": null, len … are ECAL keywords / inbuilt names
+		if !ok {
+			panic("plugin function not registered: " + f.name)
+		}
+		ts = append(ts, &c19Target{name: "c19p.fn" + f.name, adapter: fo, sig: c19PluginSig, body: f.body, plugin: true})
+	}
+	return ts
 }
 
 // ---------------------------------------------------------------- value universe
@@ -400,6 +489,7 @@ type c19Target struct {
 	ftype   reflect.Type // nil for the notfunc targets
 	sig     string
 	body    string
+	plugin  bool // registered through AddStdlibPluginFunc / LoadStdlibPlugin
 }
 
 var c19Targets []*c19Target
@@ -429,11 +519,13 @@ func c19Setup() {
 		}
 		c19Targets = append(c19Targets, t)
 	}
+	// plugin functions, through the real registration machinery
+	c19Targets = append(c19Targets, c19RegisterPlugins()...)
 	// every function of the generated stdlib
 	_, _, funcs := stdlib.GetStdlibSymbols()
 	sort.Strings(funcs)
 	for _, name := range funcs {
-		if strings.HasPrefix(name, "c19.") || strings.HasPrefix(name, "x.") {
+		if strings.HasPrefix(name, "c19.") || strings.HasPrefix(name, "c19p.") || strings.HasPrefix(name, "x.") {
 			continue
 		}
 		fo, ok := stdlib.GetStdlibFunc(name)
@@ -621,6 +713,8 @@ func c19Gen(g *Gen) {
 		g.Count(fmt.Sprintf("len %d", len(idx)))
 		if t.body == "opaque" {
 			g.Count("stdlib function")
+		} else if t.plugin {
+			g.Count("plugin function")
 		} else {
 			g.Count("synthetic function")
 		}
@@ -777,6 +871,11 @@ func c19Extract(args []string) int {
 			}
 		}
 	}
+	pluginViaAdapter, perr := c19PluginViaAdapter()
+	if perr != nil {
+		fmt.Fprintln(os.Stderr, perr)
+		return 2
+	}
 	var sb strings.Builder
 	sb.WriteString("import Ecal.Model.Bridge\n")
 	sb.WriteString("/-! GENERATED by `harness C19 -tool <file>` from stdlib/adapter.go — do not edit. -/\n")
@@ -785,12 +884,113 @@ func c19Extract(args []string) int {
 	sb.WriteString("def runShape : Shape :=\n")
 	sb.WriteString(fmt.Sprintf("  { errIsNamedResult := %v, firstStmtIsDefer := %v, closureCallsRecover := %v, closureAssignsErr := %v,\n    arityChecked := %v }\n",
 		named, deferFirst, callsRecover, assignsErr, arityChecked))
+	sb.WriteString("\n/-- stdlib.go, AddStdlibPluginFunc: every function object it hands to AddStdlibFunc is an\n")
+	sb.WriteString("    `&ECALFunctionAdapter{reflect.ValueOf(f), …}` / `NewECALFunctionAdapter(reflect.ValueOf(f), …)` with `f` a\n")
+	sb.WriteString("    `func(… ...interface{}) (interface{}, error)` closure (and there is at least one such call) -/\n")
+	sb.WriteString(fmt.Sprintf("def pluginViaAdapter : Bool := %v\n", pluginViaAdapter))
 	sb.WriteString("\nend Ecal.Gen.C19\n")
 	if err := os.WriteFile(args[0], []byte(sb.String()), 0644); err != nil {
 		fmt.Fprintln(os.Stderr, err)
 		return 2
 	}
 	return 0
+}
+
+// c19PluginViaAdapter: does AddStdlibPluginFunc register plugin functions only as ECALFunctionAdapter
+// objects wrapping a `func(a ...interface{}) (interface{}, error)` closure (so that every call passes
+// through the recover and the checks of ECALFunctionAdapter.Run)?
+func c19PluginViaAdapter() (bool, error) {
+	fset := token.NewFileSet()
+	file, err := parser.ParseFile(fset, filepath.Join(repoDir(), "stdlib", "stdlib.go"), nil, 0)
+	if err != nil {
+		return false, err
+	}
+	for _, d := range file.Decls {
+		fd, ok := d.(*ast.FuncDecl)
+		if !ok || fd.Name.Name != "AddStdlibPluginFunc" || fd.Recv != nil || fd.Body == nil {
+			continue
+		}
+		// closures of the plugin shape assigned to a local name
+		isShape := func(ft *ast.FuncType) bool {
+			if ft.Params == nil || len(ft.Params.List) != 1 || ft.Results == nil || len(ft.Results.List) != 2 {
+				return false
+			}
+			el, ok := ft.Params.List[0].Type.(*ast.Ellipsis)
+			if !ok {
+				return false
+			}
+			isEmptyIface := func(e ast.Expr) bool {
+				it, ok := e.(*ast.InterfaceType)
+				return ok && (it.Methods == nil || len(it.Methods.List) == 0)
+			}
+			return isEmptyIface(el.Elt) && isEmptyIface(ft.Results.List[0].Type) && fmt.Sprint(ft.Results.List[1].Type) == "error"
+		}
+		shaped := map[string]bool{}
+		ast.Inspect(fd.Body, func(n ast.Node) bool {
+			if as, ok := n.(*ast.AssignStmt); ok && len(as.Lhs) == 1 && len(as.Rhs) == 1 {
+				if lit, ok := as.Rhs[0].(*ast.FuncLit); ok && isShape(lit.Type) {
+					shaped[fmt.Sprint(as.Lhs[0])] = true
+				}
+			}
+			return true
+		})
+		wrapsShape := func(e ast.Expr) bool { // reflect.ValueOf(<shaped closure>)
+			ce, ok := e.(*ast.CallExpr)
+			if !ok || fmt.Sprint(ce.Fun) != "&{reflect ValueOf}" || len(ce.Args) != 1 {
+				return false
+			}
+			if lit, ok := ce.Args[0].(*ast.FuncLit); ok {
+				return isShape(lit.Type)
+			}
+			return shaped[fmt.Sprint(ce.Args[0])]
+		}
+		isAdapter := func(e ast.Expr) bool {
+			if ue, ok := e.(*ast.UnaryExpr); ok && ue.Op == token.AND {
+				if cl, ok := ue.X.(*ast.CompositeLit); ok && fmt.Sprint(cl.Type) == "ECALFunctionAdapter" && len(cl.Elts) >= 1 {
+					first := cl.Elts[0]
+					if kv, ok := first.(*ast.KeyValueExpr); ok {
+						first = nil
+						for _, el := range cl.Elts {
+							if kv2, ok := el.(*ast.KeyValueExpr); ok && fmt.Sprint(kv2.Key) == "funcval" {
+								first = kv2.Value
+							}
+						}
+						_ = kv
+					}
+					return first != nil && wrapsShape(first)
+				}
+			}
+			if ce, ok := e.(*ast.CallExpr); ok && fmt.Sprint(ce.Fun) == "NewECALFunctionAdapter" && len(ce.Args) == 2 {
+				return wrapsShape(ce.Args[0])
+			}
+			return false
+		}
+		calls, good := 0, 0
+		ast.Inspect(fd.Body, func(n ast.Node) bool {
+			ce, ok := n.(*ast.CallExpr)
+			if !ok {
+				return true
+			}
+			fn := fmt.Sprint(ce.Fun)
+			if fn == "AddStdlibFunc" && len(ce.Args) == 3 {
+				calls++
+				if isAdapter(ce.Args[2]) {
+					good++
+				}
+			}
+			return true
+		})
+		// nothing else in the function may write the function map directly
+		direct := false
+		ast.Inspect(fd.Body, func(n ast.Node) bool {
+			if id, ok := n.(*ast.Ident); ok && id.Name == "internalStdlibFuncMap" {
+				direct = true
+			}
+			return true
+		})
+		return calls >= 1 && calls == good && !direct, nil
+	}
+	return false, nil
 }
 
 // c19ArityChecked: does Run reject surplus arguments by an explicit check that returns (nil, <error>)?
